@@ -28,7 +28,13 @@ def add_stage(m, sd):
             t0, T = horizon_args(d)
             if via == "direct":
                 st = ocp.stage(t0=t0, T=T)
-                r = P.declare(d, ocp=ocp, stage=st, solver=False)
+                mobj = True
+                if getattr(m, "share_method", False):
+                    # one method INSTANCE handed to every stage (their method specifications are equal)
+                    if m.shared_method is None:
+                        m.shared_method = P.make_method(d)
+                    mobj = m.shared_method
+                r = P.declare(d, ocp=ocp, stage=st, solver=False, method=mobj)
             else:
                 key = sd.get("tmpl", 0)
                 if key not in templates:
@@ -49,9 +55,15 @@ def add_stage(m, sd):
                 # a parameter value given to this clone only, after cloning
                 if d["pg"] == "scalar" and "pg" in d.get("pvals", {}):
                     st.set_value(r.sym["pg"], d["pvals"]["pg"])
+                if sd.get("clear_cons"):
+                    st.clear_constraints()
                 for c in sd.get("extra_cons", []):
                     rel = P.CONS[c["c"]](P.CA, r.pt, d)
                     st.subject_to(P.apply_rel(rel))
+                for o in sd.get("extra_obj", []):
+                    st.add_objective(P.OBJS[o](P.CA, r.pt, d))
+                if sd.get("own_method"):
+                    st.method(P.make_method(d))
             m.reals.append(r)
 
 
@@ -64,6 +76,8 @@ def declare_multi(spec, upto=None, couple=True):
     m.reals = []
     templates = {}
     m.templates = templates
+    m.share_method = bool(spec.get("share_method"))
+    m.shared_method = None
     for i, sd in enumerate(spec["stages"]):
         if upto is not None and i >= upto:
             break
